@@ -55,9 +55,15 @@ def make_domain(rng, n, falsy=False, prefix='o'):
 
 
 # ------------------------------------------------------------------ condition ASTs
+NOLIT = [False]      # generator switch: conditions without literals (a literal's id is part of the operators' cache keys, so
+#                      only literal-free conditions ever hit the result caches)
+
+
 def gen_operand(rng, nvars, falsy):
     v = rng.randrange(nvars)
     k = rng.random()
+    if NOLIT[0]:
+        return rng.choice([('attr', v, 'size'), ('index', v, 'k'), ('attr', v, 'size')])
     if k < 0.45:
         return ('attr', v, 'size')
     if k < 0.6:
@@ -76,6 +82,8 @@ def gen_leaf(rng, nvars, falsy, vocab):
             a = ('attr', rng.randrange(nvars), 'size')
         return ('cmp', rng.choice(list(OPS)), a, b)
     if k == 'name':
+        if NOLIT[0]:
+            return ('cmp', rng.choice(['eq', 'ne']), ('attr', rng.randrange(nvars), 'name'), ('attr', rng.randrange(nvars), 'name'))
         return ('cmp', rng.choice(['eq', 'ne']), ('attr', rng.randrange(nvars), 'name'),
                 ('lit', rng.choice(['', 'a', 'b'] if falsy else ['a', 'b', 'c'])))
     if k == 'truth':
